@@ -429,6 +429,9 @@ where
                     && data.set().handle() == *set_handle
                     && data.test(false, &operator)
             }
+            Filter::Annotation(handle, SelectionQualifier::Normal, _) => {
+                data.annotations().filter_handle(*handle).test()
+            }
             Filter::Annotations(annotations, FilterMode::Any, SelectionQualifier::Normal, _) => {
                 data.annotations().filter_any_byref(annotations).test()
             }
